@@ -16,6 +16,7 @@
 #include <iostream>
 #include <map>
 #include <memory>
+#include <fstream>
 #include <sstream>
 #include <string>
 #include <vector>
@@ -97,6 +98,17 @@ static std::string step(const std::vector<std::string> &t) {
     if (op == "reset") { files.clear(); fdBaseline = openFds(); return "ok"; }
     // descriptors opened since the start of the case and still open: exactly one per open File object
     if (op == "fds") return "n=" + std::to_string(openFds() - fdBaseline);
+    if (op == "procread") {
+        // a file whose content is longer than the size it reports (procfs reports 0): a text-mode read() counts the characters it can
+        // actually read, so it returns the whole content — and stays inside whatever it allocated (ASan)
+        std::ifstream in("/proc/version", std::ios::binary);
+        if (!in) return "b=1";
+        std::string ref((std::istreambuf_iterator<char>(in)), std::istreambuf_iterator<char>());
+        File f("/proc/version", File::Mode::ReadText);
+        auto a = f.read();
+        std::string got(reinterpret_cast<const char *>(a.array()), a.size());
+        return got == ref ? "b=1" : "b=0";
+    }
     if (op == "root") { root = unhex(t[2]); return "ok"; }
     if (op == "mkfile") {
         std::string data = unhex(t[3]);
